@@ -679,26 +679,36 @@ func (li LineItem) webVTTBytes(previous, next *LineItem) (c []byte) {
 	if color != "" {
 		c = append(c, []byte("<c."+color+">")...)
 	}
+	// Tags shared with the previous item are already opened, tags shared with the next item are left opened.
+	// Only a common prefix of both stacks can be shared, otherwise tags would be closed in the wrong order.
+	var tags []WebVTTTag
 	if li.InlineStyle != nil {
-		for idx, tag := range li.InlineStyle.WebVTTTags {
-			if previous != nil && previous.InlineStyle != nil && len(previous.InlineStyle.WebVTTTags) > idx && tag.Name == previous.InlineStyle.WebVTTTags[idx].Name {
-				continue
-			}
-			c = append(c, []byte(tag.startTag())...)
-		}
+		tags = li.InlineStyle.WebVTTTags
+	}
+	var alreadyOpened, leftOpened int
+	if previous != nil && previous.InlineStyle != nil {
+		alreadyOpened = webVTTTagsCommonPrefix(previous.InlineStyle.WebVTTTags, tags)
+	}
+	if next != nil && next.InlineStyle != nil {
+		leftOpened = webVTTTagsCommonPrefix(tags, next.InlineStyle.WebVTTTags)
+	}
+	for idx := alreadyOpened; idx < len(tags); idx++ {
+		c = append(c, []byte(tags[idx].startTag())...)
 	}
 	c = append(c, []byte(escapeHTML(li.Text))...)
-	if li.InlineStyle != nil {
-		for i := len(li.InlineStyle.WebVTTTags) - 1; i >= 0; i-- {
-			tag := li.InlineStyle.WebVTTTags[i]
-			if next != nil && next.InlineStyle != nil && len(next.InlineStyle.WebVTTTags) > i && tag.Name == next.InlineStyle.WebVTTTags[i].Name {
-				continue
-			}
-			c = append(c, []byte(tag.endTag())...)
-		}
+	for idx := len(tags) - 1; idx >= leftOpened; idx-- {
+		c = append(c, []byte(tags[idx].endTag())...)
 	}
 	if color != "" {
 		c = append(c, []byte("</c>")...)
+	}
+	return
+}
+
+// webVTTTagsCommonPrefix returns the number of leading tags that are the same in both stacks
+func webVTTTagsCommonPrefix(a, b []WebVTTTag) (n int) {
+	for n < len(a) && n < len(b) && a[n].startTag() == b[n].startTag() {
+		n++
 	}
 	return
 }
